@@ -38,6 +38,8 @@ type c15E2EGen struct {
 	ct   string
 	st   c15Settings
 	ec   *c15E2ECase
+	// middleware installed on the client (the path the response travels)
+	shape c15Shape
 	// a small body written in one uncompressed segment whose declaration (BOM / meta) is complete:
 	// read with Response.Bytes() it must come back transcoded on every protocol
 	small bool
@@ -153,6 +155,11 @@ func c15E2EGenerate(r *rand.Rand, o *c15Origins, i int) *c15E2EGen {
 	if st.kind == "direct" {
 		st.kind = "default"
 	}
+	for k := range st.prog {
+		if st.prog[k].k == 'C' {
+			st.prog[k].via = 0 // the request needs a Client: clone with Client.Clone()
+		}
+	}
 	ec := &c15E2ECase{ct: ct, segs: c15Segment(r, b, verifh.Pick(r, []int{0, 2, 3, 4, 5, 6, 6})), gzip: r.Intn(5) == 0}
 	if len(ec.segs) > 12 {
 		ec.segs = append(ec.segs[:11:11], strings.Join(ec.segs[11:], ""))
@@ -182,7 +189,11 @@ func c15E2EFetch(s *verifh.Session, r *rand.Rand, c *Client, base string, how st
 	if g.small {
 		mode = "bytes"
 	}
-	human := fmt.Sprintf("%s %s charset=%s site=%s settings=%s ct=%q len=%d segs=%d gzip=%v", how, mode, g.cs.label, g.site, st.kind, ct, len(b.body), len(g.ec.segs), g.ec.gzip)
+	stName := st.kind
+	if stName == "prog" {
+		stName = "prog[" + c15ProgHuman(st.prog, st.use) + "]"
+	}
+	human := fmt.Sprintf("%s %s charset=%s site=%s settings=%s stack=%s ct=%q len=%d segs=%d gzip=%v", how, mode, g.cs.label, g.site, stName, g.shape, ct, len(b.body), len(g.ec.segs), g.ec.gzip)
 	id := fmt.Sprintf("e2e/%s/%s/%s/%s/%s/%d", g.id, how, g.cs.label, g.site, st.kind, len(b.body))
 	s.Begin(id, human)
 	var got []byte
@@ -232,19 +243,18 @@ func c15E2EFetch(s *verifh.Session, r *rand.Rand, c *Client, base string, how st
 		allowed, why = []string{b.body}, "unsupported Content-Type charset: body must be untouched"
 	default:
 		peekPath = true
+		// split_only_affects_meta_detection: the original, or the transcoding from the charset a scan of
+		// the WHOLE body selects (BOM first, else the first complete supported declaration) — a later,
+		// conflicting declaration is never a legitimate outcome, however the body was split
 		allowed = []string{b.body}
-		if _, e := c15ExpectedBOM(b.body); e != nil {
-			allowed = append(allowed, c15Transcode(e, b.body))
-		} else if !strings.HasPrefix(b.body, "\xef\xbb\xbf") {
-			for _, d := range b.decls {
-				if d.real {
-					if e := c15Lookup(d.label); e != nil {
-						allowed = append(allowed, c15Transcode(e, b.body))
-					}
-				}
+		if bn, e := c15ExpectedBOM(b.body); bn != "" {
+			if e != nil {
+				allowed = append(allowed, c15Transcode(e, b.body))
 			}
+		} else if e, _ := c15ExpectedPrescan(b, len(b.body)); e != nil {
+			allowed = append(allowed, c15Transcode(e, b.body))
 		}
-		why = "sniffing: original or the whole-body transcoding from a declared charset"
+		why = "sniffing: original or the whole-body transcoding from the charset the whole body declares first"
 	}
 	ok := err == nil && anomaly == "" && term == "eof" && c15In(string(got), allowed)
 	// The splitting of the body may decide whether a declaration is noticed — but a body of at most
@@ -286,11 +296,39 @@ func c15E2EFetch(s *verifh.Session, r *rand.Rand, c *Client, base string, how st
 }
 
 // c15Reconfigure puts a long-lived client back to the defaults and applies the case's settings
-// through the public setters (settings change between two requests of one client).
-func c15Reconfigure(c *Client, st *c15Settings, ct string) {
+// through the public setters (settings change between two requests of one client). With a
+// settings program the client is member 0 of the family; the member the program selects performs
+// the request (and, in a sequence, becomes the long-lived client: later requests run on a clone
+// of a clone …); the other members are returned for closing.
+func c15Reconfigure(c *Client, st *c15Settings, ct string) (use *Client, others []*Client) {
 	c.EnableAutoDecode()
 	c.SetAutoDecodeContentTypeFunc(nil)
-	c15Apply(c, st, ct)
+	return c15E2EApply(c, st, ct)
+}
+
+func c15E2EApply(c *Client, st *c15Settings, ct string) (use *Client, others []*Client) {
+	if st.kind != "prog" {
+		c15ApplyKind(c, st, ct)
+		return c, nil
+	}
+	fam := c15RunProg(c, false, st.prog)
+	for i, m := range fam {
+		if i != st.use {
+			others = append(others, m.c)
+		}
+	}
+	return fam[st.use].c, others
+}
+
+// c15NoClone removes the clonings from a settings program (the calls aimed at clones go with them).
+func c15NoClone(st *c15Settings) {
+	var ops []c15FamOp
+	for _, op := range st.prog {
+		if op.k != 'C' && op.i == 0 {
+			ops = append(ops, op)
+		}
+	}
+	st.prog, st.use = ops, 0
 }
 
 func c15CloseClient(c *Client) {
@@ -323,7 +361,6 @@ func TestVerif_C15_e2e(t *testing.T) {
 		g := gen()
 		how := verifh.Pick(r, []string{"h1", "h1", "h2", "h2", "h3", "h3"})
 		c := C().SetTimeout(20 * time.Second)
-		c15Apply(c, &g.st, g.ct)
 		base := o.h1URL
 		switch how {
 		case "h2":
@@ -333,8 +370,25 @@ func TestVerif_C15_e2e(t *testing.T) {
 			c.EnableInsecureSkipVerify().EnableForceHTTP3()
 			base = o.h3URL
 		}
-		c15E2EFetch(s, r, c, base, how, g)
-		c15CloseClient(c)
+		g.shape = c15GenShape(r, how != "h3")
+		shaped, tw, cw := c15ApplyShape(c, g.shape)
+		c15CountShape(s.Count, g.shape, tw, cw)
+		if shaped != c {
+			c15CloseClient(c) // the original never sent a request
+			c = shaped
+		}
+		use, others := c15E2EApply(c, &g.st, g.ct)
+		if g.st.kind == "prog" {
+			s.Count("settings-program")
+			if use != c {
+				s.Count("request-by-a-clone")
+			}
+		}
+		c15E2EFetch(s, r, use, base, how, g)
+		c15CloseClient(use)
+		for _, x := range others {
+			c15CloseClient(x)
+		}
 	}
 
 	// ---- sequences on one long-lived client, settings changed between the requests
@@ -350,10 +404,30 @@ func TestVerif_C15_e2e(t *testing.T) {
 			c.EnableInsecureSkipVerify().EnableForceHTTP3()
 			base = o.h3URL
 		}
+		// the long-lived client gets its middleware once
+		seqShape := c15GenShape(r, how != "seq-h3")
+		for len(seqShape.ops) == 0 {
+			seqShape = c15GenShape(r, how != "seq-h3")
+		}
+		shaped, tw, cw := c15ApplyShape(c, seqShape)
+		c15CountShape(s.Count, seqShape, tw, cw)
+		if shaped != c {
+			defer c15CloseClient(c)
+			c = shaped
+		}
 		for i := 0; i < m; i++ {
 			g := gen()
-			c15Reconfigure(c, &g.st, g.ct)
+			g.shape = seqShape
+			use, others := c15Reconfigure(c, &g.st, g.ct)
+			if use != c {
+				s.Count("request-by-a-clone")
+				others = append(others, c)
+				c = use // the clone lives on
+			}
 			c15E2EFetch(s, r, c, base, how, g)
+			for _, x := range others {
+				c15CloseClient(x)
+			}
 		}
 		c15CloseClient(c)
 	}
@@ -361,10 +435,15 @@ func TestVerif_C15_e2e(t *testing.T) {
 	// ---- Alt-Svc upgrade: the same client, the same origin URL; the protocol changes underneath
 	for round := 0; round < verifh.N(2, 6); round++ {
 		c := C().SetTimeout(20 * time.Second).EnableInsecureSkipVerify().EnableHTTP3()
+		altShape := c15Shape{ops: [][]string{{"twf", "cw"}, {"header-order"}, {"tw", "pseudo-header-order"}, {"cwf"}, {"tw"}, {"twf", "twf"}}[round%6]}
+		_, tw, cw := c15ApplyShape(c, altShape)
+		c15CountShape(s.Count, altShape, tw, cw)
 		deadline := time.Now().Add(8 * time.Second)
 		onH3, before := 0, 0
 		for onH3 < m/2 {
 			g := gen()
+			g.shape = altShape
+			c15NoClone(&g.st) // a clone would have to learn the Alt-Svc advertisement again
 			c15Reconfigure(c, &g.st, g.ct)
 			proto := c15E2EFetch(s, r, c, o.tlsURL, "altsvc", g)
 			if proto == "HTTP/3.0" {
